@@ -1,16 +1,16 @@
 /-
 C18, round 4 — the GLUE around the message body: theorems about the models of
 `RequestStream.ReadResponse`'s tail, `handleRequestStream`'s body / trailer wiring
-(Uquic/Model/H3/Glue.lean, run by the end-to-end oracle on every exchange of the h3e driver) and of the
+(Uquic/Model/H3/RespGlue.lean, run by the end-to-end oracle on every exchange of the h3e driver) and of the
 request writer a client connection shares between its streams (Uquic/Model/H3/ReqWriter.lean, tied to
 the real requestWriter by the h3w driver).
 -/
 import Uquic.Props.C18
-import Uquic.Model.H3.Glue
+import Uquic.Model.H3.RespGlue
 import Uquic.Proofs.H3ReqWriter
 
 namespace Uquic.Props.C18Glue
-open Uquic.Model.H3 Uquic.Model.H3.Glue Uquic.Spec.H3Wire Uquic.Proofs.H3 Uquic.Props.C18
+open Uquic.Model.H3 Uquic.Model.H3.RespGlue Uquic.Spec.H3Wire Uquic.Proofs.H3 Uquic.Props.C18
 
 /-! ### the client: ReadResponse -/
 
